@@ -551,6 +551,13 @@ func matchKnown(known []knownFinding, prop string, f failure) *knownFinding {
 				}
 				continue
 			}
+			if strings.HasPrefix(dk, "!") {
+				// negated key: a failure that carries this tag value is not an instance of the finding
+				if f.Tags[dk[1:]] == dv {
+					ok = false
+				}
+				continue
+			}
 			if f.Tags[dk] != dv {
 				ok = false
 			}
